@@ -216,6 +216,13 @@ def run(check):
     check.run_rule('C15.R11', lambda c: rule_definite_assignment(
         c, 'C15.R11', ['_signatures:merge', '_signatures:embed', '_signatures:mask', '_signatures:forwards', '_signatures:sort_params',
                        '_signatures:apply_params'], 'is not a ValueError'))
+    def r12(c):
+        from ..rules_defuse import rule_index_guarded
+        from ..callgraph import CallGraph
+        cg = CallGraph(c.repo)
+        rule_index_guarded(c, 'C15.R12', cg.closure(['_signatures:merge', '_signatures:embed', '_signatures:mask', '_signatures:forwards',
+                                                    '_signatures:sort_params', '_signatures:apply_params']), 'is not a ValueError')
+    check.run_rule('C15.R12', r12)
     from ..rules_embed import rule_accumulator_by_position
     check.run_rule('C15.R10', lambda c: rule_accumulator_by_position(c, 'C15.R10'))
     check.run_rule('C15.R9', lambda c: rule_source_helpers(c, {'depths': 'C15.R9', 'arith': None, 'dedup': None, 'complete': None}))
